@@ -7,7 +7,15 @@ package archiver
 // archive: the stage function, opaque at worker level.
 //@ func archive
 //@   opaque
+//@   property C01
+//@   sweep assert
 //@   modifies models.Item::*, models.URL::*
+//@   local acq int = 0
+//@   local added int = 0
+//@   attr hooked guard
+//@   after send(guard)#1: acq = acq + 1
+//@   after Add(wg)#1: added = added + 1
+//@   loop range invariant [slot-per-fetch] @C01 acq == added // C01: never dropped, for all per-worker asset concurrency (a slot of the --max-concurrent-assets semaphore is taken only for a fetch that is started - the fetch goroutine gives it back; a slot taken for a skipped node would never come back and archive() would block for ever)
 
 // Worker gauge discipline (C17): the worker contributes +1 to its gauge while it is alive and
 // its net contribution is 0 once it has returned, on every exit path.
